@@ -103,7 +103,32 @@ func tdCorpora() []*tdCorpus {
 	}
 	sp = append(sp, tdDocT{id: "p:del-b", term: "b", deleted: true})
 	sparse := mk("sparse", [][]tdDocT{sp}, "1segs/del=1")
-	return []*tdCorpus{full, sparse}
+	// corpus "three": 3 unmerged segments, every vocabulary string (but "bbb") held by a live
+	// document in EVERY segment, one pending deletion of a recurring term per segment, and
+	// "bbb" held only by a deleted document of every segment.
+	// corpus "four": 4 unmerged segments; string number i lives in every segment when i%3 == 0
+	// and in the three segments k with (i+k)%4 != 0 otherwise; one pending deletion per segment.
+	multi := func(name string, nseg int, in func(i, k int) bool) *tdCorpus {
+		segs := make([][]tdDocT, nseg)
+		delTerm := []string{"ab", "a", "bab", ""}
+		for k := 0; k < nseg; k++ {
+			for i, t := range tdVocab {
+				if t == "bbb" || !in(i, k) {
+					continue
+				}
+				segs[k] = append(segs[k], tdDocT{id: fmt.Sprintf("s%d:%x", k+1, t), term: t})
+			}
+			at := (k + 1) * len(segs[k]) / (nseg + 1)
+			d := tdDocT{id: fmt.Sprintf("s%d:del-%x", k+1, delTerm[k]), term: delTerm[k], deleted: true}
+			segs[k] = append(segs[k][:at:at], append([]tdDocT{d}, segs[k][at:]...)...)
+			segs[k] = append(segs[k], tdDocT{id: fmt.Sprintf("s%d:del-bbb", k+1), term: "bbb", deleted: true})
+		}
+		lay := fmt.Sprintf("%dsegs/del=2", nseg) + strings.Repeat("+2", nseg-1)
+		return mk(name, segs, lay)
+	}
+	three := multi("three", 3, func(i, k int) bool { return true })
+	four := multi("four", 4, func(i, k int) bool { return i%3 == 0 || (i+k)%4 != 0 })
+	return []*tdCorpus{full, sparse, three, four}
 }
 
 // tdQuery is one dictionary query with its meaning as a predicate on a term.
@@ -224,7 +249,15 @@ var regexpGrammar = []string{
 }
 
 func initTDQueries() {
-	add := func(q *tdQuery) { tdQueries = append(tdQueries, q) }
+	// built per kind, then ordered: term, prefix, term range, wildcard, regexp, fuzzy
+	var groups [6][]*tdQuery
+	cur := 0
+	add := func(q *tdQuery) { groups[cur] = append(groups[cur], q) }
+	defer func() {
+		for _, g := range []int{0, 1, 5, 2, 3, 4} {
+			tdQueries = append(tdQueries, groups[g]...)
+		}
+	}()
 	// term
 	for _, t := range tdVocab {
 		t := t
@@ -232,6 +265,7 @@ func initTDQueries() {
 			match: func(s string) bool { return s == t }})
 	}
 	// prefix: every non-empty vocabulary string and a few more ending in 0xff
+	cur = 1
 	for _, p := range append(append([]string(nil), tdVocab[1:]...), "b\xff", "\xff\xff", "a\xff\xff", "ab\xff") {
 		p := p
 		tq := &tdQuery{text: "prefix " + q(p), build: func() bluge.Query { return bluge.NewPrefixQuery(p).SetField("k") },
@@ -245,6 +279,7 @@ func initTDQueries() {
 		add(tq)
 	}
 	// wildcard: every string over {a, b, ?, *} of length 0..3
+	cur = 2
 	alpha := "ab?*"
 	var wilds []string
 	var gen func(pre string, l int)
@@ -281,6 +316,7 @@ func initTDQueries() {
 			match: func(s string) bool { return re.MatchString(s) }, skip: notUTF8})
 	}
 	// regexp: whole-term match
+	cur = 3
 	for _, p := range regexpGrammar {
 		p := p
 		re := regexp.MustCompile(`^(?:` + p + `)$`)
@@ -288,6 +324,7 @@ func initTDQueries() {
 			match: func(s string) bool { return re.MatchString(s) }, skip: notUTF8})
 	}
 	// fuzzy: Levenshtein distance <= fuzziness and the first `prefix` characters equal
+	cur = 4
 	for _, t := range tdVocab {
 		for fz := 0; fz <= 2; fz++ {
 			for pl := 0; pl <= 2; pl++ {
@@ -333,6 +370,7 @@ func initTDQueries() {
 		}
 	}
 	// term range: both ends from the vocabulary, "" = unbounded
+	cur = 5
 	for _, lo := range tdVocab {
 		for _, hi := range tdVocab {
 			for fl := 0; fl < 4; fl++ {
@@ -441,7 +479,7 @@ func tdEval(idx int64, param string) *explore.Result {
 	}
 	for _, mode := range tdModes {
 		res.Evals++
-		ids, err := runSearch(r, mode.mk(tq.build(), 64))
+		ids, err := runSearch(r, mode.mk(tq.build(), 200))
 		fail := ""
 		if err != nil {
 			fail = "error: " + err.Error()
